@@ -253,6 +253,10 @@ func (db *SingleBucketBackend) HeadObject(bucketName, objectName string) (*gofak
 		return nil, gofakes3.BucketNotFound(bucketName)
 	}
 
+	if !validKey(objectName) {
+		return nil, gofakes3.KeyNotFound(objectName)
+	}
+
 	db.lock.Lock()
 	defer db.lock.Unlock()
 
@@ -283,6 +287,10 @@ func (db *SingleBucketBackend) HeadObject(bucketName, objectName string) (*gofak
 func (db *SingleBucketBackend) GetObject(bucketName, objectName string, rangeRequest *gofakes3.ObjectRangeRequest) (obj *gofakes3.Object, err error) {
 	if bucketName != db.name {
 		return nil, gofakes3.BucketNotFound(bucketName)
+	}
+
+	if !validKey(objectName) {
+		return nil, gofakes3.KeyNotFound(objectName)
 	}
 
 	db.lock.Lock()
@@ -346,6 +354,10 @@ func (db *SingleBucketBackend) PutObject(
 
 	if bucketName != db.name {
 		return result, gofakes3.BucketNotFound(bucketName)
+	}
+
+	if !validKey(objectName) {
+		return result, invalidKey(objectName)
 	}
 
 	err = gofakes3.MergeMetadata(db, bucketName, objectName, meta)
@@ -454,6 +466,9 @@ func (db *SingleBucketBackend) DeleteObject(bucketName, objectName string) (resu
 }
 
 func (db *SingleBucketBackend) deleteObjectLocked(bucketName, objectName string) error {
+	if !validKey(objectName) {
+		return invalidKey(objectName)
+	}
 	// S3 does not report an error when attemping to delete a key that does not exist, so
 	// we need to skip IsNotExist errors.
 	if err := db.fs.Remove(filepath.FromSlash(objectName)); err != nil && !os.IsNotExist(err) {
